@@ -45,13 +45,17 @@ type flowViol struct {
 // pipe mutex. Readers take the pipe mutex through Pipe methods or use Snapshot
 // helpers guarded by their own means after the pipe is quiet.
 type FlowChecker struct {
-	Judge      [2]bool // which ends are real code (violations) vs harness (bugs)
-	byID       [2]map[uint32]*flowChan
-	openByWSeq map[int64]*flowChan
-	Viol       []flowViol
-	HarnessBug []string
-	Overflow   []int64 // Seq of delivered adjusts that would push a window above 2^32-1
-	OnData     func(end int, fc *flowChan, m *Msg)
+	Judge [2]bool // which ends are real code (violations) vs harness (bugs)
+	// CreditAtWrite[s]: sender end s (a harness sender that reacts inside the
+	// receiver's own write) is credited when the WINDOW_ADJUST is written,
+	// i.e. as soon as the grant is on the wire, instead of when it is read.
+	CreditAtWrite [2]bool
+	byID          [2]map[uint32]*flowChan
+	openByWSeq    map[int64]*flowChan
+	Viol          []flowViol
+	HarnessBug    []string
+	Overflow      []int64 // Seq of delivered adjusts that would push a window above 2^32-1
+	OnData        func(end int, fc *flowChan, m *Msg)
 }
 
 func NewFlowChecker(judge0, judge1 bool) *FlowChecker {
@@ -111,6 +115,10 @@ func (f *FlowChecker) onWrite(ev *Ev) {
 		fc.id[e], fc.have[e] = m.Sender, true
 		f.byID[e][m.Sender] = fc
 		fc.confWin, fc.confMax = m.Window, m.MaxPacket
+	case MsgChanAdjust:
+		if f.CreditAtWrite[1-e] {
+			f.credit(1-e, ev)
+		}
 	case MsgChanData, MsgChanExtData:
 		m, err := Parse(ev.Pkt)
 		if err != nil {
@@ -178,25 +186,32 @@ func (f *FlowChecker) onRead(ev *Ev) {
 		fc.d[e].credit = uint64(fc.confWin)
 		fc.d[e].maxPkt = fc.confMax
 	case MsgChanAdjust:
-		m, err := Parse(ev.Pkt)
-		if err != nil {
-			return
+		if !f.CreditAtWrite[e] {
+			f.credit(e, ev)
 		}
-		fc := f.byID[e][m.Chan]
-		if fc == nil {
-			return
-		}
-		d := &fc.d[e]
-		if d.poisoned {
-			return
-		}
-		if d.credit-d.debit+uint64(m.Window) > maxWindow {
-			d.poisoned = true
-			f.Overflow = append(f.Overflow, ev.Seq)
-			return
-		}
-		d.credit += uint64(m.Window)
 	}
+}
+
+// credit applies a WINDOW_ADJUST to the data sender s.
+func (f *FlowChecker) credit(s int, ev *Ev) {
+	m, err := Parse(ev.Pkt)
+	if err != nil {
+		return
+	}
+	fc := f.byID[s][m.Chan]
+	if fc == nil {
+		return
+	}
+	d := &fc.d[s]
+	if d.poisoned {
+		return
+	}
+	if d.credit-d.debit+uint64(m.Window) > maxWindow {
+		d.poisoned = true
+		f.Overflow = append(f.Overflow, ev.Seq)
+		return
+	}
+	d.credit += uint64(m.Window)
 }
 
 // chanByName returns the flow state of the channel opened with the given type name.
